@@ -274,6 +274,34 @@ impl<F, R> CongressSample<F, R> {
     }
 }
 
+// Verification hooks (compiled only with `--cfg metrique_verif`): the sampler's clock is
+// `Instant::now()` and is not injectable, so the harness ends intervals explicitly and reads
+// the per-group state.
+#[cfg(metrique_verif)]
+#[doc(hidden)]
+impl<F, R> CongressSample<F, R> {
+    pub fn verif_end_interval(&mut self) {
+        self.update_rates();
+    }
+
+    /// (group, average observed per interval, current sample rate, observed in this interval)
+    pub fn verif_groups(&self) -> Vec<(Vec<(String, String)>, f32, f32, u32)> {
+        self.groups
+            .iter()
+            .map(|(g, s)| {
+                (
+                    g.iter()
+                        .map(|(k, v)| (k.to_string(), v.to_string()))
+                        .collect(),
+                    s.average_observed.current(),
+                    s.sample_rate,
+                    s.current_observed,
+                )
+            })
+            .collect()
+    }
+}
+
 #[derive(Clone, Copy, Default)]
 struct GroupState {
     current_observed: u32,
